@@ -271,7 +271,33 @@ func tEq(a, b string) string {
 	if a == b {
 		return "true"
 	}
+	if isGroundLit(a) && isGroundLit(b) {
+		// two different literals of one sort
+		return "false"
+	}
 	return app("=", a, b)
+}
+
+// isGroundLit: a decimal integer, a negated one, a bit-vector literal or a boolean constant.
+func isGroundLit(s string) bool {
+	if s == "true" || s == "false" {
+		return true
+	}
+	if strings.HasPrefix(s, "(- ") && strings.HasSuffix(s, ")") {
+		s = s[3 : len(s)-1]
+	}
+	if strings.HasPrefix(s, "(_ bv") && strings.HasSuffix(s, ")") {
+		return !strings.ContainsAny(s[5:len(s)-1], "()|")
+	}
+	if s == "" {
+		return false
+	}
+	for _, c := range s {
+		if c < '0' || c > '9' {
+			return false
+		}
+	}
+	return true
 }
 
 func tIte(c, a, b string) string {
